@@ -41,6 +41,34 @@ type openOnly struct{ inner hackpadfs.FS }
 
 func (o openOnly) Open(name string) (hackpadfs.File, error) { return o.inner.Open(name) }
 
+// brokenList exposes nothing but Open, and the listing of every directory with two or more entries breaks off before its
+// (alphabetically) last entry: the entries read so far come back together with an error, as from a failing disk.
+type brokenList struct{ inner hackpadfs.FS }
+
+var errListing = errors.New("verif: the listing broke off")
+
+func (b brokenList) Open(name string) (hackpadfs.File, error) {
+	f, err := b.inner.Open(name)
+	if err != nil {
+		return nil, err
+	}
+	return brokenDir{f, name}, nil
+}
+
+type brokenDir struct {
+	hackpadfs.File
+	name string
+}
+
+func (d brokenDir) ReadDir(n int) ([]hackpadfs.DirEntry, error) {
+	des, err := hackpadfs.ReadDirFile(d.File, -1)
+	if err != nil || len(des) < 2 {
+		return des, err
+	}
+	sort.Slice(des, func(i, j int) bool { return des[i].Name() < des[j].Name() })
+	return des[:len(des)-1], &hackpadfs.PathError{Op: "readdir", Path: d.name, Err: errListing}
+}
+
 // twin is one of the two identical worlds.
 type twin struct {
 	parent hackpadfs.FS   // operations address this FS (directly, or through a view of it)
@@ -70,6 +98,9 @@ func newTwin(kind string) *twin {
 	case "openonly":
 		inner := subj.NewMem()
 		return &twin{parent: openOnly{inner}, setup: inner, parts: []hackpadfs.FS{inner}, close: func() {}}
+	case "brokenlist":
+		inner := subj.NewMem()
+		return &twin{parent: brokenList{inner}, setup: inner, parts: []hackpadfs.FS{inner}, close: func() {}}
 	case "subsub":
 		inner := subj.NewMem()
 		must(inner.Mkdir("p", 0o755))
@@ -80,7 +111,7 @@ func newTwin(kind string) *twin {
 	panic(kind)
 }
 
-var kinds = []string{"mem", "mount", "osfs", "openonly", "subsub"}
+var kinds = []string{"mem", "mount", "osfs", "openonly", "brokenlist", "subsub"}
 
 // Case header (first step of the replay) and ops follow.
 type Header struct {
@@ -199,6 +230,9 @@ func (m *machine) step(op ops.Op) (string, string) {
 			}
 		}
 	} else {
+		if !reflect.DeepEqual(r1.Partial, r2.Partial) {
+			return base + ":partial-listing-differs", fmt.Sprintf("dir=%q view %v failed (%v) handing back %v; direct %v failed (%v) handing back %v", m.dir, op, r1.Err, r1.Partial, direct, r2.Err, r2.Partial)
+		}
 		c1, c2 := ops.ErrClass(r1.Err), ops.ErrClass(r2.Err)
 		if c1 != c2 {
 			return base + ":error-class-differs", fmt.Sprintf("dir=%q view %v: %v [%s]; direct %v: %v [%s]", m.dir, op, r1.Err, c1, direct, r2.Err, c2)
@@ -233,6 +267,9 @@ func genHeader(t *rapid.T, kind string, names []string) Header {
 	scratch := newTwin(kind)
 	defer scratch.close()
 	n := rapid.IntRange(1, 6).Draw(t, "nsetup")
+	if kind == "brokenlist" {
+		n += 4 // directories with several entries are the point there
+	}
 	for i := 0; i < n; i++ {
 		snap, _ := ops.SnapFS(scratch.setup)
 		tr := gen.TreeOf(snap)
@@ -297,6 +334,9 @@ func run(t *testing.T, kind string) {
 					tr.Dirs = []string{"."}
 				}
 				op := gen.Op(rt, tr, names, 3, false)
+				if kind == "brokenlist" && rapid.Bool().Draw(rt, "listing") {
+					op = ops.Op{K: "readdir", P: rapid.SampledFrom(tr.Dirs).Draw(rt, "listed")}
+				}
 				if kind == "osfs" && op.K == "readfile" {
 					// fine on os
 				}
@@ -317,11 +357,12 @@ func run(t *testing.T, kind string) {
 	})
 }
 
-func TestMem(t *testing.T)      { run(t, "mem") }
-func TestMount(t *testing.T)    { run(t, "mount") }
-func TestOSFS(t *testing.T)     { run(t, "osfs") }
-func TestOpenOnly(t *testing.T) { run(t, "openonly") }
-func TestSubSub(t *testing.T)   { run(t, "subsub") }
+func TestMem(t *testing.T)        { run(t, "mem") }
+func TestMount(t *testing.T)      { run(t, "mount") }
+func TestOSFS(t *testing.T)       { run(t, "osfs") }
+func TestOpenOnly(t *testing.T)   { run(t, "openonly") }
+func TestBrokenList(t *testing.T) { run(t, "brokenlist") }
+func TestSubSub(t *testing.T)     { run(t, "subsub") }
 
 func TestReplayAll(t *testing.T) {
 	for _, kind := range kinds {
